@@ -2,6 +2,7 @@ package evsim
 
 import (
 	"bytes"
+	"runtime/debug"
 	"fmt"
 	"math/big"
 	"strings"
@@ -227,3 +228,15 @@ type PcCall struct {
 }
 
 func keccak(b []byte) []byte { return ethcrypto.Keccak256(b) }
+
+func debugStack() []byte { return debug.Stack() }
+
+// panicKind names the class of a panic value (stable part of the message).
+func panicKind(v string) string {
+	for _, k := range []string{"send on closed channel", "close of closed channel", "index out of range", "nil pointer dereference", "failed to unmarshal", "slice bounds out of range", "concurrent map"} {
+		if strings.Contains(v, k) {
+			return strings.ReplaceAll(k, " ", "_")
+		}
+	}
+	return "other"
+}
